@@ -10,6 +10,7 @@ import (
 	"crypto/ecdsa"
 	"encoding/base64"
 	"encoding/json"
+	"errors"
 	"fmt"
 	"strings"
 
@@ -129,7 +130,12 @@ func fetchSKIDFromAPU(jwe *JSONWebEncryption) (string, bool) {
 	// use apu as skid instead.
 	if len(jwe.Recipients) > 1 {
 		if a, apuOK := jwe.ProtectedHeaders["apu"]; apuOK {
-			skidBytes, err := base64.RawURLEncoding.DecodeString(a.(string))
+			apu, isString := a.(string)
+			if !isString {
+				return "", false
+			}
+
+			skidBytes, err := base64.RawURLEncoding.DecodeString(apu)
 			if err != nil {
 				return "", false
 			}
@@ -287,6 +293,10 @@ func buildRecipientsWrappedKey(jwe *JSONWebEncryption) ([]*cryptoapi.RecipientWr
 	)
 
 	for _, recJWE := range jwe.Recipients {
+		if recJWE == nil {
+			return nil, errors.New("jwe recipient is nil")
+		}
+
 		headers := recJWE.Header
 		alg, ok := jwe.ProtectedHeaders.Algorithm()
 		is1PU := ok && strings.Contains(strings.ToUpper(alg), "1PU")
@@ -299,9 +309,17 @@ func buildRecipientsWrappedKey(jwe *JSONWebEncryption) ([]*cryptoapi.RecipientWr
 			}
 		}
 
+		if headers == nil {
+			return nil, errors.New("jwe recipient has no header")
+		}
+
 		var recWK *cryptoapi.RecipientWrappedKey
 		// set kid if 1PU (authcrypt) with multi recipients since common protected headers don't have the recipient kid.
 		if is1PU && len(jwe.Recipients) > 1 {
+			if recJWE.Header == nil {
+				return nil, errors.New("jwe recipient has no header")
+			}
+
 			headers.KID = recJWE.Header.KID
 		}
 
